@@ -5,7 +5,7 @@ _s = importlib.util.spec_from_file_location("c15cfg", _p); _m = importlib.util.m
 SPEC = {
     "module": "C33.Property",
     "targets": ["C33/Property.vo"],
-    "theorems": ["C33_failed_run_changes_nothing", "C33_failures_erased", "C33_nonvacuous"],
+    "theorems": ["C33_failed_run_changes_nothing", "C33_failures_erased", "C33_model_satisfies_spec", "C33_nonvacuous"],
     "streams": [dict(_m.STREAM, name="srv33")],
     "level_text": "Theorems: a failed validation cycle leaves the entire served state unchanged, and for every history of "
                   "successful and failed runs the served state equals that of the history with the failures erased "
